@@ -11,7 +11,9 @@ for f in sorted(glob.glob('/verif/pvs/refs/*_ref.py')):
         q = quals.get(n)
         if not q:
             continue
-        ok, m, x = compare(r.func(q), template_func(ref, n))
+        fi = r.func(q)
+        tail = fi.qual.split(':')[-1]
+        ok, m, x = compare(fi, template_func(ref, n, closure=tail.count('.') >= (2 if fi.cls else 1)))
         if not ok:
             print(os.path.basename(f), n, 'MISMATCH', [e.show()[:120] for e in m + x])
 print('done')
